@@ -206,8 +206,15 @@ static int mpi_harness_main(int argc, char **argv, Gen generate, Exec execute) {
         const std::string &line = lines[cs];
         if (g_wrank == 0) { std::ofstream cur(o.out + "/current_case.txt"); cur << cs << "\n"; }
         Result r; Toks t = split(line);
+#ifdef VH_POISON_TRACK          // C10: poisoned re-run of this harness (-include poison.hpp): record the allocation sites of the case
+        vh_poison::track = true;
+#endif
         try { if (t.empty()) throw bad_input("empty"); r = execute(t); }
         catch (const bad_input &) { r = Result("bad-input"); }     // thrown while parsing, identically on every rank, before any communication
+#ifdef VH_POISON_TRACK
+        vh_poison::track = false;
+        for (auto &key : vh_poison::sites_since_mark()) r.tags.push_back("site:" + key);
+#endif
         if (g_wrank == 0) {
             impl << r.out << "\n" << std::flush;
             if (r.ok) orc << "ok\n"; else orc << "FAIL " << r.why << "\n"; orc << std::flush;
